@@ -557,7 +557,10 @@ Record oracles := Oracles {
   re_str : nat -> name -> option bool;         (* [re.compile(regex number).search(string)] is not None *)
   re_path : nat -> path -> option bool;        (* the same on [str(path)] *)
   text_matches : nat -> list N -> option (option bool);   (* TEXT-MATCHER number k on a file with these contents *)
-  run_exit0 : nat -> path -> option (option bool) }.      (* PROGRAM number k with the path as last argument: exit code = 0 *)
+  run_exit0 : nat -> path -> option (option bool);        (* PROGRAM number k with the path as last argument: exit code = 0 *)
+  link_error : path -> option bool }.
+  (* for a symbolic link that does not resolve: [os.stat] fails with an error OTHER than ENOENT (ELOOP: a cyclic link;
+     ENOTDIR: the target lies below a regular file).  [DirEntry.is_dir()] returns False for ENOENT and RAISES for these. *)
 
 Section Oracles.
   (** The order in which [os.scandir] lists the directory at a path (from the top directory of the
@@ -574,6 +577,20 @@ Section Oracles.
   (** The body of [for dir_entry in current_file.dir_entries()] of
       [_FilesGeneratorForRecursive.generate]: yields, directories appended to [remaining_dirs],
       exception of the prune matcher. *)
+  (** [maybe_entry_for_dir.is_dir()] inside [try: ... except OSError: raise HardErrorException]:
+      links are followed; a link that does not resolve is "no directory" if it is merely dangling
+      and an exception (HARD_ERROR) if resolving it fails otherwise. *)
+  Definition dir_test (c : tree) (p : path) : res bool :=
+    match resolve c with
+    | Some (Dir _) => Ok true
+    | Some _ => Ok false
+    | None => match link_error O p with
+              | Some true => Err EHard
+              | Some false => Ok false
+              | None => Err EMiss
+              end
+    end.
+
   Fixpoint scan_dir (prune : elem -> res bool) (within_min not_at_max : bool)
            (rel abs : path) (depth : nat) (es : dirc) : list elem * list qitem * option err :=
     match es with
@@ -581,15 +598,19 @@ Section Oracles.
     | (n, c) :: es' =>
         let e := Elem (rel ++ [n]) (abs ++ [n]) c in
         let ys := if within_min then [e] else [] in
-        if not_at_max && is_dir c
-        then match prune e with
-             | Ok b =>
-                 let '(ys', qs', er) := scan_dir prune within_min not_at_max rel abs depth es' in
-                 (ys ++ ys', (if b then [] else [QItem (rel ++ [n]) (abs ++ [n]) c (S depth)]) ++ qs', er)
-             | Err x => (ys, [], Some x)
-             end
-        else let '(ys', qs', er) := scan_dir prune within_min not_at_max rel abs depth es' in
-             (ys ++ ys', qs', er)
+        match (if not_at_max then dir_test c (abs ++ [n]) else Ok false) with
+        | Ok true =>
+            match prune e with
+            | Ok b =>
+                let '(ys', qs', er) := scan_dir prune within_min not_at_max rel abs depth es' in
+                (ys ++ ys', (if b then [] else [QItem (rel ++ [n]) (abs ++ [n]) c (S depth)]) ++ qs', er)
+            | Err x => (ys, [], Some x)
+            end
+        | Ok false =>
+            let '(ys', qs', er) := scan_dir prune within_min not_at_max rel abs depth es' in
+            (ys ++ ys', qs', er)
+        | Err x => (ys, [], Some x)
+        end
     end.
 
   (** [while remaining_dirs: current_file = remaining_dirs.pop(0) ...] *)
